@@ -463,6 +463,20 @@ func scenarioCases(f fnSpec, thorough bool) []Case {
 				}
 			}
 		}
+	case f.name == "fd_read" || f.name == "fd_pread":
+		// an iovec buffer that covers a later entry of the same iovec array, filled from a file whose bytes are an iovec
+		for _, st := range []string{"alias", "dir"} {
+			for _, fd := range []uint64{6, 4, 0} {
+				for _, n := range []uint64{1, 2, 3} {
+					for _, p := range []uint64{offIovC, offIovB} {
+						a := base(fd)
+						a[idx["iovs"]], a[idx["iovs_len"]] = p, n
+						k++
+						add(a, st, k)
+					}
+				}
+			}
+		}
 	case f.name == "sock_accept" && sockStateOK:
 		// a connection is pending on the listener (state sockp)
 		for _, fd := range []uint64{3, 4, 0, 5} {
